@@ -172,7 +172,7 @@ Lemma ingest_spec : forall c b bytes s s',
 Proof.
   intros c b bytes s s' I. unfold ingest.
   destruct (c_max_wal_bytes c <? wal_size s); [discriminate|].
-  destruct (prepare (c_seed c) b (tabs s) [] []) as [[[l1 created] colrows]| | | |] eqn:Ep;
+  destruct (prepare code_seed b (tabs s) [] []) as [[[l1 created] colrows]| | | |] eqn:Ep;
     cbn [bind]; try discriminate.
   set (full := b ++ meta_tables_batch created ++ colrows).
   destruct (apply_batch full l1) as [l2| | | |] eqn:Ea; cbn [bind]; try discriminate.
@@ -479,9 +479,9 @@ Proof.
     - intros x HI. apply N.leb_le. rewrite Ecur. eapply seqN_ge. rewrite <- (i_ids _ I).
       apply in_map. exact HI. }
   rewrite Ekeep.
-  destruct (restore_tables (c_seed c) (tabs s)) as [l0| | | |] eqn:E0; cbn [bind]; try discriminate.
-  destruct (create_if_empty (c_seed c) s_meta_tables l0) as [l1 b1] eqn:E1.
-  destruct (replay (c_seed c) (d_wal s) None l1) as [l2| | | |] eqn:E2; cbn [bind]; try discriminate.
+  destruct (restore_tables code_seed (tabs s)) as [l0| | | |] eqn:E0; cbn [bind]; try discriminate.
+  destruct (create_if_empty code_seed s_meta_tables l0) as [l1 b1] eqn:E1.
+  destruct (replay code_seed (d_wal s) None l1) as [l2| | | |] eqn:E2; cbn [bind]; try discriminate.
   intro H. injection H as <-.
   destruct (restore_tables_spec _ _ _ (i_keys _ I) (i_tabs _ I) E0) as [ND0 H0].
   pose proof (grows_create _ _ _ _ _ E1) as G1.
